@@ -12,7 +12,6 @@ From V.model Require Import RelLossy RelConv.
 From V.proofs Require Import RelLossyP.
 From V.proofs Require RelGrammarAccP.
 From Coq Require Import ZifyBool.
-Set Default Timeout 60.
 
 (* ================================================================== B. the builder (in-place splices, /repo 5517d72) *)
 (* what Relation::new + set_archqual + set_architectures + add_profile* leave behind *)
